@@ -145,7 +145,7 @@ Proof.
         apply ostr_k_inj in Hk1. subst k1. assert (ob1 = ob) by congruence. subst ob1.
         split.
         { intros Hex. destruct (ProvModel.o_exists ob) eqn:El; [|reflexivity]. destruct (Flive eq_refl) as (X & _). congruence. }
-        split; [right; right; exact Fr|]. split; [exact Fp|]. split.
+        split; [intros _; right; right; exact Fr|]. split; [exact Fp|]. split.
         * intros Hd cs Hcs. destruct (fo_owner _ _ _ _ _ _ _ _ FO Hd cs Hcs) as (Q1 & Q2 & (r & Q3) & Q4 & _).
           destruct (fo_owner2 _ _ _ _ _ _ _ _ FO Hd cs Hcs) as (_ & Q6).
           destruct (ProvModel.o_exists ob) eqn:El.
@@ -201,12 +201,14 @@ Qed.
 
 (* the refresh of both sides before an entry is synchronised *)
 Theorem get_latest_both evl g w e w' :
-  InvP evl g w -> (2 <= e)%nat -> get_latest w e false [false; true] = ROk w' ->
+  InvP evl g w -> (2 <= e)%nat -> (forall en, nth_error (ents (w_st w)) e = Some en -> is_discarded (e_ign en) = false) ->
+  get_latest w e false [false; true] = ROk w' ->
   InvP evl g w' /\ ReadyS evl w' e false /\ ReadyS evl w' e true /\ (forall sd0, prov_of w' sd0 = prov_of w sd0) /\
   (forall x sd0, x <> e -> getx w' x sd0 = getx w x sd0).
 Proof.
-  intros I He H. unfold get_latest, get_e, lift, get_ent in H.
+  intros I He Hnd H. unfold get_latest, get_e, lift, get_ent in H.
   destruct (nth_error (ents (w_st w)) e) as [en|] eqn:Hn; [|discriminate]. cbn [rbind] in H.
+  specialize (Hnd en eq_refl).
   rewrite maxchg_fold in H.
   destruct (i_clke _ _ _ I e en Hn) as (Hmx & _).
   pose proof (i_ents _ _ _ I e en He Hn) as EO.
@@ -215,7 +217,7 @@ Proof.
               forall k ob, s_oid (gs en sd) = Some (ostr_k k) -> obj_at w sd k = Some ob -> pd evl sd k = true \/ freshP (gs en sd) ob).
   { intros sd Hlt k ob Ho Hob. destruct (so_full _ _ _ _ _ _ (eo_side _ _ _ _ _ EO sd) _ Ho) as (k1 & ob1 & Hk1 & Hob1 & _ & FO).
     apply ostr_k_inj in Hk1. subst k1. assert (ob1 = ob) by congruence. subst ob1.
-    destruct (fo_K _ _ _ _ _ _ _ _ FO) as [X|[X|X]]; [left; exact X| |right; exact X]. apply N.ltb_ge in Hlt. lia. }
+    destruct (fo_K _ _ _ _ _ _ _ _ FO Hnd) as [X|[X|X]]; [left; exact X| |right; exact X]. apply N.ltb_ge in Hlt. lia. }
   cbn [get_latest_loop orb] in H.
   (* side LOCAL *)
   assert (H1: exists w1 en1, (if N.ltb (x_lg (getx w e false)) (maxchg en)
